@@ -174,12 +174,12 @@ def build_machine(exprs, names, kinds, coro=(), decl="itself"):
             sm_attrs[real] = f
         elif kind == "sm_attr":
             plain.append(("sm", n, real))
-            sm_attrs[real] = 0
+            sm_attrs[real] = None      # (not filled in yet at construction)
         elif kind == "model_method":
             model_attrs[real] = f
         elif kind == "model_attr":
             plain.append(("model", n, real))
-            model_attrs[real] = 0
+            model_attrs[real] = None
         elif kind == "listener_method":
             lis_attrs[real] = f
         elif kind == "listener_prop":
